@@ -34,7 +34,7 @@ def gen():
 # ----------------------------------------------------------------------------- program generator
 
 SAFE_CHARS = "abcdefghijklmnopqrstuvwxyzABCDEFGHIJKLMNOPQRSTUVWXYZ0123456789 _.,+-*/=<>()!%&|~{}@"
-NUMV = ["va", "vb", "vc", "vd", "ve", "vf"]
+NUMV = ["va", "vb", "vc", "vd", "ve", "vf", "averyveryverylongname_x", "averyveryverylongname_y", "Vg"]
 TNTV = ["ta", "tb"]
 STRV = ["sa$", "sb$", "sc$"]
 ARRS = [("qa", [6]), ("qb", [3, 4])]
@@ -105,6 +105,8 @@ class Gen:
         ok = [v for v, (lo, hi) in lv.items() if lo >= 0 and hi < d]
         if ok and k < 0.4:
             return r.choice(ok)
+        if k < 0.46:
+            return "%d.%s" % (r.randint(0, d - 1), r.choice(["25", "4", "49"]))     # intexpr rounds to nearest
         if k < 0.5:
             return "%d + %d" % (r.randint(0, (d - 1) // 2), r.randint(0, (d - 1) // 2))
         if k < 0.53 and ctx.get("allow_bad"):
@@ -197,12 +199,12 @@ class Gen:
             s = self.sexpr(depth - 1, ctx)
             # start 1 (or below: clamped to 1) so that the start never lies beyond the end of the string
             i = r.choice(["1", "1", "0", "-2", "1"])
-            j = r.choice(["", ", %d" % r.randint(0, 6), ", 0", ", %s" % self.pr(self.iexpr(1, ctx), 0)])
+            j = r.choice(["", ", %d" % r.randint(0, 6), ", 0", ", %s" % self.pr(self.iexpr(1, ctx), 0), ", 2.5", ", 1.4"])
             return ("raw", "MID$(%s, %s%s)" % (self.pr(s, 0), i, j), 6)
         if k < 0.75:
             return ("raw", "%s(%s)" % (r.choice(["LTRIM", "RTRIM", "TRIM"]), self.pr(self.sexpr(depth - 1, ctx), 6)), 6)
         if k < 0.82:
-            return ("raw", "PAD(%s, %d)" % (self.pr(self.sexpr(depth - 1, ctx), 0), r.randint(0, 9)), 6)
+            return ("raw", "PAD(%s, %s)" % (self.pr(self.sexpr(depth - 1, ctx), 0), r.choice([str(r.randint(0, 9)), "3.5", "4.49"])), 6)
         if k < 0.9:
             return ("raw", "CHR$(%d)" % r.randint(48, 122), 6)
         return ("raw", "TRIM(STR$(ABS(FLOOR(%s))))" % self.pr(self.cexpr(1, ctx), 0), 6)
@@ -424,7 +426,8 @@ class Gen:
                 m = r.randint(2, 3)
                 tg = [self.new_id() for _ in range(m)]
                 end = self.new_id()
-                self.emit("ON %s GOTO %s" % (self.pr(self.iexpr(1, ctx), 0), ", ".join("@L%d@" % t for t in tg)))
+                sel = self.pr(self.iexpr(1, ctx), 0) if r.random() < 0.7 else r.choice(["1.5", "2.4", "0.5", "0.4", "%d.5" % m])
+                self.emit("ON %s GOTO %s" % (sel, ", ".join("@L%d@" % t for t in tg)))
                 for t in tg:
                     self.emit(self.simple(ctx), t)
                     self.emit("GOTO @L%d@" % end)
@@ -1013,10 +1016,14 @@ def run(ctx):
         ctx.obligation("model evaluation (coqc cases.v)", False, mlog)
     stats = {"ok": 0, "outside": 0, "VIOLATION": 0, "error_both": 0, "values_compared": 0, "bit_exact": 0}
     by_host = {}
+    outside_why = {}
     for i, c in enumerate(cases):
         model, res = models[i] if i < len(models) else None, impl.get(i)
         verdict, detail = judge(c, model, res)
         stats[verdict] += 1
+        if verdict == "outside":
+            why = detail.split(":")[1].strip()[:60] if detail.startswith("unsup") else detail[:60]
+            outside_why[why] = outside_why.get(why, 0) + 1
         if detail == "error on both sides":
             stats["error_both"] += 1
         by_host.setdefault(c["host"], {"ok": 0, "outside": 0, "VIOLATION": 0})[verdict] += 1
@@ -1033,6 +1040,7 @@ def run(ctx):
             ctx.notes.append("corpus case outside the model: " + detail)
     ctx.extra["outcomes"] = stats
     ctx.extra["outcomes_by_host"] = by_host
+    ctx.extra["outside_reasons"] = outside_why
     ctx.notes.append("values outside the model's subset (unsup/nofuel) are counted as 'outside' and not judged")
     ctx.notes.append("bare `-a^b` is read by the interpreter as (-a)^b; the generator parenthesises the base in 90% of the cases, "
                      "the model mirrors the interpreter (observation, not a violation)")
